@@ -2,9 +2,15 @@ package absnfs
 
 // C12 — ACCESS decisions follow UNIX permission rules and never over-grant.
 
+import (
+	"bytes"
+	"os"
+)
+
 func init() {
 	vpRegister("VPH_C12_access", VPH_C12_access)
 	vpRegister("VPH_C12_connection", VPH_C12_connection)
+	vpRegister("VPH_C12_access_as_sent", VPH_C12_access_as_sent)
 }
 
 func VPH_C12_access() {
@@ -49,6 +55,120 @@ func VPH_C12_access() {
 	vpAssert(reply != nil, "reply")
 	rd := &vpRd{b: vpReplyBytes(reply)}
 	status := rd.u32()
+	vpAssert(status == NFS_OK, "status-ok")
+	attr, follows := rd.postOp()
+	vpAssert(follows, "attrs-follow")
+	granted := rd.u32()
+	vpAssert(rd.done(), "reply-consumed")
+
+	// reference, written from the statement
+	class := vpIteU32(euid == fuid, (perm>>6)&7, vpIteU32(inGroup, (perm>>3)&7, perm&7))
+	class = vpIteU32(euid == 0, 7, class)
+	r, w, x := class&4 != 0, class&2 != 0, class&1 != 0
+	var want uint32
+	want |= vpIteU32(r, ACCESS3_READ, 0)
+	want |= vpIteU32(vpAnd(isDir, x), ACCESS3_LOOKUP, 0)
+	want |= vpIteU32(x, ACCESS3_EXECUTE, 0)
+	want |= vpIteU32(vpAnd(w, !ro), ACCESS3_MODIFY|ACCESS3_EXTEND, 0)
+	want |= vpIteU32(vpAnd(vpAnd(w, !ro), isDir), ACCESS3_DELETE, 0)
+	want &= mask
+	vpObserve("granted", granted)
+	vpObserve("want", want)
+	vpAssert(granted&^mask == 0, "subset-of-requested")
+	vpAssert(granted == want, "granted-equals-unix-rule")
+	vpAssert(vpImplies(ro, granted&(ACCESS3_MODIFY|ACCESS3_EXTEND|ACCESS3_DELETE) == 0), "readonly-never-grants-write")
+	// the attributes in the same reply describe the same object
+	vpAssert(attr.mode&0777 == perm&0777, "reply-mode")
+	vpAssert(attr.uid == fuid, "reply-uid")
+}
+
+// VPH_C12_access_as_sent: the same decision for a caller as it arrives on the wire, through the real
+// HandleCall: the effective identity is what the real authentication path computes under squash none /
+// root / all (the root override and the class selection use the *effective* ids), and the handle's
+// node may still describe an earlier object of the other type at this path.
+func VPH_C12_access_as_sent() {
+	naux := 1
+	if vpTier() == 1 {
+		naux = 2
+	}
+	fs := vpNewFS()
+	n := fs.addFile("/f", 10)
+	isDir := vpBool("isdir")
+	if isDir {
+		n.kind = vpKDir
+		vpReach("dir")
+	} else {
+		vpReach("file")
+	}
+	perm := vpU32("perm") & 07777
+	n.perm = perm
+	ro := vpBool("ro")
+	env := vpServer(fs, ExportOptions{ReadOnly: ro})
+	h := env.handleFor("/f")
+	node, ok := env.h.lookupNode(h)
+	vpAssume(ok)
+	fuid, fgid := vpU32("fuid"), vpU32("fgid")
+	node.attrs.Uid, node.attrs.Gid = fuid, fgid
+	env.clearCaches()
+
+	// The caller: the identity it sends on the wire (AUTH_SYS uid, gid, auxiliary gids) and the
+	// export's squash mode; the decision is made for the *effective* identity, which the real
+	// authentication path computes (the request goes through HandleCall) and which the reference
+	// below derives from C10's statement.
+	wuid, wgid := vpU32("euid"), vpU32("egid")
+	waux := make([]uint32, naux)
+	for i := range waux {
+		waux[i] = vpU32("aux")
+	}
+	squash := []string{"none", "root", "all"}[vpChoose("squash", 0, 2)]
+	if squash != "none" {
+		pol := *env.nfs.policy.Load()
+		pol.Squash = squash
+		env.nfs.policy.Store(&pol) // Squash cannot be changed through the update API; the export is "built" with it
+	}
+	euid, egid := wuid, wgid
+	aux := append([]uint32(nil), waux...)
+	switch squash {
+	case "all":
+		euid, egid = 65534, 65534
+		for i := range aux {
+			aux[i] = 65534
+		}
+	case "root":
+		euid = vpIteU32(wuid == 0, 65534, wuid)
+		egid = vpIteU32(vpOr(wuid == 0, wgid == 0), 65534, wgid)
+		for i := range aux {
+			aux[i] = vpIteU32(waux[i] == 0, 65534, waux[i])
+		}
+	}
+	inGroup := egid == fgid
+	for i := range aux {
+		inGroup = vpOr(inGroup, aux[i] == fgid)
+	}
+	// the handle's node may still describe an earlier object at this path (RMDIR d, RENAME f -> d:
+	// the handle of d is now a file's): the decision follows what the object is now
+	staleNode := false
+	if squash == "none" {
+		staleNode = vpBool("handle-node-has-the-other-type")
+	}
+	if staleNode {
+		vpReach("stale-node-type")
+		node.attrs.Mode ^= os.ModeDir
+	}
+	mask := vpU32("mask")
+
+	var b vpBuf
+	b.fh(h).u32(mask)
+	call := &RPCCall{Header: RPCMsgHeader{Xid: 5, MsgType: RPC_CALL, RPCVersion: 2, Program: NFS_PROGRAM, Version: NFS_V3, Procedure: NFSPROC3_ACCESS},
+		Credential: RPCCredential{Flavor: AUTH_SYS, Body: vpAuthSysBody(1, "h", wuid, wgid, waux)}}
+	reply, herr := env.h.HandleCall(call, bytes.NewReader(b.Bytes()), &AuthContext{ClientIP: "127.0.0.1", ClientPort: 700, Credential: &call.Credential})
+	vpAssert(vpAnd(herr == nil, reply != nil), "reply")
+	vpAssert(reply.Status == MSG_ACCEPTED, "caller-admitted")
+	rd := &vpRd{b: vpReplyBytes(reply)}
+	status := rd.u32()
+	if staleNode && status != NFS_OK {
+		return // refusing a handle whose object was replaced (NFS3ERR_STALE) is fine
+	}
 	vpAssert(status == NFS_OK, "status-ok")
 	attr, follows := rd.postOp()
 	vpAssert(follows, "attrs-follow")
